@@ -1,0 +1,7 @@
+//go:build verif
+
+// Contracts for package proxy/providers, checked by /verif (ssovc). Comment-only file.
+package providers
+
+//@ interface Provider.ValidateGroup(email string, allowedGroups []string, accessToken string) ([]string, bool, error)
+//@   modifies nothing
